@@ -76,7 +76,7 @@ def run_tlc(module_path, cfg_path, *, workers=16, simulate=None, depth=None, see
             dfid=None, want_prints=True, extra_args=None, tolerate_overflow=False):
     """Run TLC on module_path with cfg_path. Returns TlcResult. Raises MachineryError on crashes."""
     meta = tempfile.mkdtemp(prefix="tlcmeta-", dir=scratch())
-    cmd = ["java", "-XX:+UseParallelGC", "-Xmx8g"]
+    cmd = ["java", "-XX:+UseParallelGC", "-Xmx8g", "-Djava.io.tmpdir=" + meta]   # TLC's own temporary directories go with the scratch
     if java_opts:
         cmd += java_opts
     cmd += ["-cp", TLA_CP, "tlc2.TLC", "-workers", str(workers), "-metadir", meta,
